@@ -123,6 +123,15 @@ def render_module(uni, slot, module, style=None):
                 args.append("autouse=True")
             deps = _seq(it["deps"])
             fname = it["name"]
+            if "assign" in st_flags and not deps and not it.get("scope", 0) and not it.get("autouse") \
+                    and any(x["k"] == "def" and x["name"] == it["name"] for x in items[:i0]):
+                # ASSIGNMENT-STYLE fixture re-binding a name the module already defined with a decorated function
+                lines.append("%s = pytest.fixture()(lambda: 1)" % it["name"])
+                r.item_line[idx] = ln
+                r.def_name_pos[idx] = (ln, 0, len(it["name"]))
+                lines.append("")
+                lines.append("")
+                continue
             if "alias" in st_flags and not deps:
                 # a RENAMED fixture: the function is called otherwise, the fixture name comes from name=
                 args.append('name="%s"' % it["name"])
@@ -386,6 +395,12 @@ def pyextract(text, uni=None, slot=None):
                     pos.append({"line": st.lineno, "uses": {}})
             elif isinstance(st, ast.Assign) and len(st.targets) == 1 and isinstance(st.targets[0], ast.Name):
                 t = st.targets[0].id
+                v0 = st.value
+                if isinstance(v0, ast.Call) and isinstance(v0.func, ast.Call) and _is_fixture_deco(v0.func):
+                    # assignment-style fixture: name = pytest.fixture(...)(callable)
+                    items.append({"k": "def", "name": t, "deps": [], "scope": 0, "autouse": False, "mod": "-", "marks": [], "cmarks": [], "ind": []})
+                    pos.append({"line": st.lineno, "uses": {}})
+                    continue
                 if t == "pytest_plugins":
                     v = st.value
                     mods = []
